@@ -23,6 +23,7 @@ def analyse_negative(ctx, want_props):
             continue
         for label in labels:
             diags = facts.diags(cname, label)
+            resolution_broken = any(x.get("code") in ("E0433", "E0412", "E0425", "E0432", "E0405") for x in diags)
             claimed = set()
             for d in witnesses:
                 mine = attributed(diags, d)
@@ -33,6 +34,9 @@ def analyse_negative(ctx, want_props):
                 props = {d["prop"]}
                 key = "%s|%s|%s|rejected%s" % (cname, d["path"], d["clause"], "" if label == "neg" else "|" + label)
                 ctx.note_shape(props, cname + "::" + d["path"], ("reject", d["clause"], d.get("base"), json.dumps(d.get("shape"), sort_keys=True)))
+                if not mine and resolution_broken:
+                    ctx.ob(props, key, None, "the must-fail crate has name-resolution errors elsewhere; rustc stops before type checking, so this witness's (type-level) rejection cannot be observed")
+                    continue
                 if not mine:
                     ctx.ob(props, key, False,
                            "must-fail witness compiles: %s -- accepted: %s" % (d["clause"], " ".join(l.strip() for l in d["lines"])[:260]),
